@@ -14,8 +14,9 @@
    <ClientPayloadCodec as Decoder>::decode (client.rs:171) [pc_decode]
    Decoder::decode_eof, default body (tokio-util)          [deof_default]
    ClientPayloadCodec::decode_eof                          [pc_decode_eof fixed]:
-       fixed = false : the tree before fix F9 (no override, default body)
-       fixed = true  : the override delivered as fixes/F9.patch
+       fixed = false : THE TREE AS IT IS (no override, default body; finding F9)
+       fixed = true  : the override PROPOSED in fixes/F9.proposed.patch (not applied: the
+                       repository's test not_modified_spec_h1 pins the current behaviour)
    ClientCodec::message_type / keep_alive                  [message_type] / [keep_alive]
    actix_codec::Framed { read_buf, flags }                 [framed]
    Framed::next_item (framed.rs:177)                       [next_item]
@@ -82,7 +83,7 @@ Definition is_eof_kind (k : kind) : bool := match k with KEof => true | _ => fal
 
 (* error of the payload codec: PEIo = the io::Error of the chunked decoder (or "bytes remaining"),
    which `From<io::Error> for PayloadError` turns into PayloadError::Incomplete(Some(err));
-   PEIncomplete = PayloadError::Incomplete(None), raised by the decode_eof override of fix F9 *)
+   PEIncomplete = PayloadError::Incomplete(None), raised only by the decode_eof override of the proposed fix F9 *)
 Inductive plerr := PEIo | PEIncomplete.
 
 Section WithParser.
@@ -179,7 +180,8 @@ Definition deof_default {C I E : Type} (dec : C -> bytes -> dres E (C * bytes * 
   | DPanic => DPanic
   end.
 
-(* ClientPayloadCodec::decode_eof: before fix F9 the default; after it the override *)
+(* ClientPayloadCodec::decode_eof: the tree has no override (fixed = false: default body);
+   fixed = true is the override of fixes/F9.proposed.patch *)
 Definition pc_decode_eof (fixed : bool) (c : ccodec) (src : bytes)
   : dres plerr (ccodec * bytes * option (option bytes)) :=
   if fixed then
